@@ -33,10 +33,64 @@ def cases(seed, tier):
     for i in range(n):
         yield {"family": fams[i % 6], "delim": rs.DELIMS[(i // 6) % 6], "route": ROUTES[(i // 36) % 4],
                "sub": int(rng.integers(0, 2**31))}
+    for j, B in enumerate([4096, 8192, 16384, 65536] if tier == "quick" else [512, 1024, 2048, 4096, 8192, 12288, 16384, 32768, 65536, 131072]):
+        yield {"family": "header-size", "boundary": B, "delim": rs.DELIMS[1 + j % 5], "route": "sfile", "sub": int(rng.integers(0, 2**31))}
 
 
 def install():
     rs.instrument_all()
+
+
+def run_header_size(case):
+    """text files whose header ends just before, on and just after a block boundary (every byte offset from -40 to
+    +40): the reader that looks for the END line must find it wherever a buffered read cuts it"""
+    from esutil import sfile
+    rng = np.random.default_rng(case["sub"])
+    B, delim = case["boundary"], case["delim"]
+    d = os.environ.get("VERIF_CASEDIR", ".")
+    path = os.path.join(d, "c04h_%d.rec" % case["_i"])
+    t = np.zeros(3, dtype=[("END", "<i4"), ("s", "S4"), ("k", ">i8"), ("TREND", "<u2", (2,))])
+    t["END"] = [1, -2, 2147483647]
+    t["s"] = [b"END", b"ab", b"x y" if delim != " " else b"xy"]
+    t["k"] = [-9223372036854775807, 0, 77]
+    t["TREND"] = [[1, 2], [65535, 0], [3, 4]]
+
+    def write(k):
+        sfile.write(path, t, delim=delim, header={"pad": "p" * k, "END": "SIZE = 3"})
+        raw = open(path, "rb").read()
+        i = raw.find(b"\nEND\n\n")
+        return i
+
+    k = max(1, B - 300)
+    pos = write(k)
+    if pos < 0:
+        COL.violation("C04.cells", "no END line found in a freshly written text file", {"boundary": B})
+        return
+    k = max(1, k + (B - 40 - pos))
+    for kk in range(k, k + 81):
+        try:
+            pos = write(kk)
+        except Exception as e:
+            COL.violation("C04.cells", "sfile.write (text, %d-byte header) raised %s: %s" % (kk, type(e).__name__, str(e)[:140]), {"boundary": B, "pad": kk})
+            continue
+        wit = {"boundary": B, "end_line_offset": pos, "delim": delim}
+        got, e = probe.attempt(sfile.read, path, header=True)
+        if e is not None:
+            COL.violation("C04.cells", "text file whose END line starts at byte %d (block boundary %d%+d): sfile.read raised %s: %s" % (
+                pos, B, pos - B, type(e).__name__, str(e)[:140]), wit, key="header-size/read-raised")
+            continue
+        data, hdr = got
+        same = isinstance(data, np.ndarray) and data.size == 3 and data.dtype.names == t.dtype.names and all(
+            np.array_equal(data[n], t[n]) for n in t.dtype.names) and hdr.get("pad") == "p" * kk
+        if same:
+            COL.ok("C04.cells", ("header-size", delim, B, pos - B))
+        else:
+            COL.violation("C04.cells", "text file whose END line starts at byte %d (block boundary %d%+d): rows or header differ from what was written" % (
+                pos, B, pos - B), wit, key="header-size/differs")
+    try:
+        os.unlink(path)
+    except OSError:
+        pass
 
 
 def make_table(case, rng):
@@ -117,6 +171,8 @@ def classify(table, delim, what_field, names):
 
 
 def run_case(case):
+    if case["family"] == "header-size":
+        return run_header_size(case)
     from esutil import sfile, recfile
     import esutil.io as eio
     rng = np.random.default_rng(case["sub"])
